@@ -68,6 +68,9 @@ def main():
         def script(qn, proto, nth, q):
             if qn.startswith("ok"):
                 return [("reply", dnslib.build_reply(q, answers=[(qn, 1, 0, bytes([10, 1, 1, 1]))]), 0)]
+            if qn.startswith("slow"):
+                # a well-formed reply, merely very late (12 s): longer than any patience a forwarder may have
+                return [("reply", dnslib.build_reply(q, answers=[(qn, 1, 0, bytes([10, 1, 1, 2]))]), 12.0)] if nth == 0 else [("drop",)]
             # a hostile upstream: the reply is a hostile packet with the query's id (and question where it fits)
             h = bytes.fromhex(hostile_replies[hr_idx[0] % len(hostile_replies)]["hex"])
             hr_idx[0] += 1
@@ -144,6 +147,9 @@ def main():
         for ln in [0, 0, 1, 2, 11, 12, 13, 16, 17]:
             inputs.insert(rnd.randrange(len(inputs)), {"hex": (bytes([0, 9, 1, 0, 0, 1, 0, 0, 0, 0, 0, 0, 1, 97, 0, 0, 1, 0, 1]))[:ln].hex(), "how": "datagram / TCP frame of %d octets" % ln})
         us = socket.socket(socket.AF_INET, socket.SOCK_DGRAM)
+        import threading
+        slow_threads = [threading.Thread(target=lambda: dnslib.tcp_query(("127.0.0.53", 53), dnslib.build_query(77, "slowtcp.c05.test", edns=1232), timeout=30.0)),
+                        threading.Thread(target=lambda: dnslib.udp_query(("127.0.0.53", 53), dnslib.build_query(78, "slowudp.c05.test", edns=1232), timeout=30.0))]
         for b in range(0, len(inputs), 50):
             batch = inputs[b:b + 50]
             for k, i in enumerate(batch):
@@ -184,6 +190,15 @@ def main():
             note_panics("dns", batch)
             health("dns", "mixed", b // 50)
         us.close()
+        # two queries whose (well-formed) upstream replies take 12 s, with nothing else going on
+        for t_ in slow_threads:
+            t_.start()
+        for t_ in slow_threads:
+            t_.join(timeout=40)
+        time.sleep(2.5)
+        time.sleep(0.5)
+        note_panics("dns", [{"how": "upstream reply 12 s late (TCP and UDP)", "hex": ""}])
+        health("dns", "after-very-late-upstream-replies", 9000)
         leg.count("dns_inputs", len(inputs))
         leg.count("hostile_upstream_replies", hr_idx[0])
         # ---------------------------------------------------------------- ICMPv6 over the veth
